@@ -68,6 +68,10 @@ def canary(off: int, n: int) -> bytes:
 # ---------------------------------------------------------------------------
 
 
+class _InjectedWriteError(OSError):
+    """The fault injected into _ShmSink.write (told apart from errors the code under test raises itself)."""
+
+
 class FakeShmHost:
     """name -> bytearray registry of one simulated machine (one per run)."""
 
@@ -569,15 +573,44 @@ class ShmWorld:
             self.ch.probe("nested_dictionary_direct_path")
         pointer = None
         out_cm = None
+        # fault: the copy into the segment fails part-way (an I/O error from the sink).  The operation may fail, but the
+        # region it had reserved must be given back - its own entry, not a neighbour's - and no other batch may change.
+        inject_at = self.ch.choose(3, "write.fault.at") if self.ch.chance(1, 12, "write.fault") else None
+        real_sink_write = shm_mod._ShmSink.write
+        calls = [0]
+
+        def faulty_write(sink_self: Any, data: Any) -> Any:
+            calls[0] += 1
+            if inject_at is not None and calls[0] == inject_at + 1:
+                raise _InjectedWriteError(5, "simulated I/O error while copying the batch into the segment")
+            return real_sink_write(sink_self, data)
+
+        if inject_at is not None:
+            shm_mod._ShmSink.write = faulty_write  # type: ignore[method-assign]
         try:
-            if via == "aw":
-                res = seg.allocate_and_write(batch)
-            else:
-                pointer, out_cm = shm_mod.maybe_write_to_shm(batch, cm, seg)
-                if pointer is batch:
-                    res = None
+            try:
+                if via == "aw":
+                    res = seg.allocate_and_write(batch)
                 else:
-                    res = (int(out_cm.get(b"vgi_rpc.shm_offset")), int(out_cm.get(b"vgi_rpc.shm_length")))
+                    pointer, out_cm = shm_mod.maybe_write_to_shm(batch, cm, seg)
+                    if pointer is batch:
+                        res = None
+                    else:
+                        res = (int(out_cm.get(b"vgi_rpc.shm_offset")), int(out_cm.get(b"vgi_rpc.shm_length")))
+            finally:
+                shm_mod._ShmSink.write = real_sink_write  # type: ignore[method-assign]
+        except _InjectedWriteError:
+            la = self.last_alloc
+            self.ch.fault("shm.write-io-error")
+            self._ev("write", via, site, "injected-io-error", "alloc", la)
+            self.call = "allocate_and_write:after-injected-write-error"
+            self.check_table()  # the reserved region must be gone again, every other entry must still be there
+            if not self.failed:
+                d = self.check_memory(allowed=(la[1], la[0])) if la is not None and la[1] is not None else self.check_memory()
+                if d is not None:
+                    self.violate("write-overrun", f"{site},after-io-error", f"{self.op}: after the injected write error bytes [{d[0]}, {d[1]}] "
+                                 f"outside the reserved region {la} differ ({d[3]})")
+            return None
         except Exception as exc:  # noqa: BLE001 - a valid batch and a healthy segment: nothing may raise
             la = self.last_alloc
             self._ev("write", via, site, "raised", type(exc).__name__)
